@@ -44,6 +44,81 @@ func LostWakeup(kind, interval int) hx.Sx {
 	return mkCase(kind, 1, interval, []int{gate}, []hx.Sx{holder, getter})
 }
 
+// Phases of a heartbeat-lifecycle case (HbLifecycle).
+const (
+	PhIdle  = 0 // nothing held, nobody waits: the heartbeat ticks with waiters = 0, eventsAvailable = true
+	PhFull  = 1 // every event held, nobody waits: waiters = 0, eventsAvailable = false
+	PhPress = 2 // every event held, one getter asleep: waiters = 1, eventsAvailable = false (ordinary back-pressure)
+	PhLost  = 3 // the lost wake-up: every back() falls between the getter's check and its Cond.Wait; only the heartbeat
+	//             (waiters = 1, eventsAvailable = true) resumes the getter
+)
+
+// HbLifecycle: one controller goroutine (id 1) takes the pool through the given phases, each lasting ms[i] milliseconds (more than
+// the heartbeat interval, so that the heartbeat ticks in every one of the four combinations of its two loads that the phases
+// stand for), and ends with the lost wake-up schedule of LostWakeup: the pool has lived through back-pressure episodes and
+// idle periods, and the heartbeat started in the first episode must still be there to repair the lost wake-up.  Every phase
+// that needs a getter has its own goroutine (ids 2, 3, ...); only the getters of the lost-wake-up phases are parked at the gate.
+// The goroutines are synchronised by the phase counter (ops 12 / 13), the waiter count (op 10) and the gate (ops 4 / 11 / 5),
+// not by sleeping.  A heartbeat that returns (or slows down) under ANY of the four load combinations leaves the last getter
+// asleep with capacity free: record 210, and 217 when it returned in the middle of an iteration.
+func HbLifecycle(kind, capacity, interval int, phases []int, ms []int) hx.Sx {
+	gate := 20
+	if kind == 11 {
+		gate = 21
+	}
+	phases = append(append([]int(nil), phases...), PhLost)
+	ms = append(append([]int(nil), ms...), 0)
+	gates := []hx.Sx{hx.I(gate)}
+	var ctl []hx.Sx
+	var getters []hx.Sx
+	ph, parked, next := 0, 0, 2
+	takeAll := func() {
+		for k := 0; k < capacity; k++ {
+			ctl = append(ctl, op(0))
+		}
+	}
+	backAll := func() {
+		for k := 0; k < capacity; k++ {
+			ctl = append(ctl, op(1))
+		}
+	}
+	for i, p := range phases {
+		last := i == len(phases)-1
+		switch p {
+		case PhIdle:
+			ctl = append(ctl, op(2, ms[i]))
+		case PhFull:
+			takeAll()
+			ctl = append(ctl, op(2, ms[i]))
+			backAll()
+		case PhPress, PhLost:
+			tid := next
+			next++
+			getters = append(getters, hx.L(op(13, ph+1), op(0), op(1), op(12, ph+2)))
+			takeAll()
+			ctl = append(ctl, op(12, ph+1))
+			if p == PhPress {
+				ctl = append(ctl, op(10, 1), op(2, ms[i]))
+				backAll()
+			} else {
+				gates = append(gates, op(2, tid))
+				parked++
+				ctl = append(ctl, op(4, parked))
+				backAll()
+				ctl = append(ctl, op(2, 1))
+				if last {
+					ctl = append(ctl, op(5))
+				} else {
+					ctl = append(ctl, op(11))
+				}
+			}
+			ctl = append(ctl, op(13, ph+2))
+			ph += 2
+		}
+	}
+	return hx.L(hx.I(kind), hx.I(capacity), hx.I(interval), hx.L(gates...), hx.L(append([]hx.Sx{hx.L(ctl...)}, getters...)...))
+}
+
 // Gen generates, runs and records the pool cases (sub-models 10 = low-memory, 11 = standard).
 func Gen(c *hmain.Ctx) {
 	r := c.R
@@ -64,6 +139,33 @@ func Gen(c *hmain.Ctx) {
 			holder := hx.L(op(0), op(2, 20), op(1))
 			getter := hx.L(op(2, 5), op(0), op(1))
 			add("prompt-wakeup", kind, mkCase(kind, 1, 400, nil, []hx.Sx{holder, getter}))
+		}
+	}
+	// 1c. directed: the heartbeat's life cycle.  The pool lives through back-pressure episodes, idle periods and periods in which
+	//     it is full with nobody waiting - each longer than the wake-up interval - and then meets the lost wake-up: the heartbeat
+	//     that get() started ONCE, in the first episode, must still tick (HbLifecycle).  The first phase is a back-pressure episode
+	//     (it starts the heartbeat); the first few cases are the plain "episode, idle period, lost wake-up" of both pools
+	for i := 0; i < 14*c.Scale; i++ {
+		for _, kind := range []int{10, 11} {
+			interval := r.Range(12, 18)
+			dur := func() int { return interval + interval/3 + r.Intn(interval+interval/2) }
+			capacity := 1
+			if i >= 2 && r.Chance(1, 3) {
+				capacity = r.Range(2, 3)
+			}
+			phases := []int{PhPress, PhIdle}
+			if i >= 2 {
+				phases = []int{[]int{PhPress, PhPress, PhLost}[r.Intn(3)]}
+				rest := []int{PhIdle, PhFull, PhPress, PhLost, PhIdle}
+				for k := r.Range(1, 4); k > 0; k-- {
+					phases = append(phases, rest[r.Intn(len(rest))])
+				}
+			}
+			ms := make([]int, len(phases))
+			for k := range ms {
+				ms[k] = dur()
+			}
+			add("heartbeat-lifecycle", kind, HbLifecycle(kind, capacity, interval, phases, ms))
 		}
 	}
 	// 2. small scope, exhaustive over scripts (not over schedules): capacity 1..2, 2..3 goroutines,
@@ -241,7 +343,7 @@ func decorate(cs hx.Sx, avg int, size func(t int) int, dirty func() int) hx.Sx {
 func failed(obs hx.Sx) bool {
 	for _, l := range hx.Items(obs) {
 		switch hx.Int(hx.Items(l)[0]) {
-		case LStuck, LTimeout, LPanic:
+		case LStuck, LTimeout, LPanic, LHbGone:
 			return true
 		}
 	}
@@ -309,6 +411,25 @@ func runJobs(c *hmain.Ctx, jobs []*job) {
 			c.W.Count(fmt.Sprintf("pool: largest size class of the case %d..%d", top/8*8, top/8*8+7))
 		case "recycle":
 			c.W.Count(fmt.Sprintf("pool: recycle case on pool kind %d", j.which))
+		case "heartbeat-lifecycle":
+			// which of the four combinations (waiters > 0, eventsAvailable) the heartbeat of this case loaded
+			w := int64(-1)
+			seen := map[string]bool{}
+			for _, l := range hx.Items(j.obs) {
+				it := hx.Items(l)
+				switch hx.Int(it[0]) {
+				case 52, 77:
+					w = hx.Int(it[1])
+				case 53, 78:
+					if w >= 0 {
+						seen[fmt.Sprintf("pool: heartbeat ticked with waiters>0=%v eventsAvailable=%v", w > 0, hx.Int(it[1]) != 0)] = true
+					}
+					w = -1
+				}
+			}
+			for k := range seen {
+				c.W.Count(k)
+			}
 		}
 		c.W.Case(j.stream, j.which, j.cs, j.obs, true)
 	}
